@@ -162,6 +162,10 @@ def events(n, out):
         events(n.get("right"), out)
         out.append(("assign", norm(n["left"]), norm(n.get("right_text"))))
         return
+    if k == "binary" and norm(n.get("op", "")) in ("+=", "-="):
+        events(n.get("r"), out)
+        out.append(("addassign", norm(n["text"]).split(norm(n["op"]))[0], norm(n["op"]), norm(n["text"]).split(norm(n["op"]), 1)[1]))
+        return
     if k == "match":
         before = len(out)
         events(n.get("on_tree"), out)
@@ -292,6 +296,29 @@ def rule_table(ctx, f, ast, rt):
         ctx.check(ok_reads, "C08-TABLE", key + ".operands",
                   "`%s` reads operands %s, the operator table defines %s" % (op, got["reads"], row["operands"]), "pdf/src/content.rs:%d" % got["line"],
                   detail="`%s` operands %s" % (op, row["operands"]))
+        if "operand_names" in row:
+            # operands bound one by one (`points!(args, c1, c2, p)`): the k-th operand fills the field the table names k-th
+            bound = [x for e in got["events"] if e[0] == "bind" for x in e[1]]
+            field_of = {}
+            def _fields(tree):
+                if isinstance(tree, dict):
+                    if tree.get("k") == "struct":
+                        for fl_ in tree["fields"]:
+                            tx = norm(fl_["e"].get("text", "")) if isinstance(fl_["e"], dict) else ""
+                            if re.match(r"^[a-z_][a-z0-9_]*$", tx):
+                                field_of.setdefault(tx, set()).add(fl_["name"])
+                    for v_ in tree.values():
+                        _fields(v_)
+                elif isinstance(tree, list):
+                    for v_ in tree:
+                        _fields(v_)
+            for e in got["events"]:
+                if e[0] == "push":
+                    _fields(e[1])
+            got_names = [sorted(field_of.get(x, {x})) for x in bound]
+            ctx.check(len(got_names) == len(row["operand_names"]) and all(w_ in g_ for w_, g_ in zip(row["operand_names"], got_names)), "C08-TABLE", key + ".operand-order",
+                      "`%s` binds its operands to %s, the operator's definition gives %s" % (op, got_names, row["operand_names"]), "pdf/src/content.rs:%d" % got["line"],
+                      detail="operands fill %s in this order" % row["operand_names"])
         if "fields" in row:
             for d, fields in got["ops"]:
                 want_f = row["fields"].get(d.split(":")[0])
@@ -435,10 +462,38 @@ def rule_sib(ctx, f, ast, rt, a):
         return
     ctx.floor("C08-SIB", len(rows), 60, "leaves of the serializer")
     seen_variants = set()
+    # the cursor of the serializer: `ops = &ops[advance..]` after the match, `let mut advance = 1` before it
+    adv = None
+    sfn = ast.find("pdf/src/content.rs", "serialize_ops")[0]
+    for nd in walk_nodes(sfn["body"]):
+        if nd.get("k") == "assign" and norm(nd.get("left", "")) == "ops":
+            mm = re.match(r"^&ops\[(\w+)\.\.\]$", norm(nd.get("right_text", "")))
+            if mm:
+                adv = mm.group(1)
+    adv_init = None
+    for nd in walk_nodes(sfn["body"]):
+        if adv and nd.get("k") == "let" and norm(nd.get("pat", "")) in ("mut" + adv, adv) and isinstance(nd.get("init"), dict) and nd["init"].get("k") == "lit":
+            adv_init = norm(nd["init"]["text"])
+    if not ctx.check(adv is not None and adv_init == "1", "C08-SIB", "serialize_ops#cursor", "the serializer's cursor over the Op slice was not found (`let mut advance = 1; .. ops = &ops[advance..]`)",
+                     "pdf/src/content.rs:%d" % sfn["line"], detail="ops = &ops[%s..], %s starts at 1" % (adv, adv)):
+        adv = None
     for row in rows:
         kw, kinds = keyword_of(row, a, f)
         pat = [o for o in row["ops"] if not isinstance(o, tuple)]
         conds = [o[1] for o in row["ops"] if isinstance(o, tuple)]
+        if adv is not None and kw != "<error>":
+            # a leaf that writes k operations as one operator moves the cursor over all k of them (1 + the sum of its `advance += n`)
+            incs = [e for e in row["events"] if e[0] == "addassign" and e[1] == adv]
+            tot = 1
+            okc = True
+            for e in incs:
+                if e[2] == "+=" and e[3].isdigit():
+                    tot += int(e[3])
+                else:
+                    okc = False
+            ctx.check(okc and tot == len(pat), "C08-SIB", "serialize_ops#%s%s.consumed" % ("+".join(pat), ("?" + "&".join(o[1] for o in row["ops"] if isinstance(o, tuple))) if conds else ""),
+                      "the leaf writes the %d operation(s) %s as one operator but moves the cursor by %d: the operations it merged are written again (or one is skipped)"
+                      % (len(pat), pat, tot), "pdf/src/content.rs:%d" % row["line"], detail="cursor += %d for %s" % (tot, pat))
         seen_variants.add(pat[0].split(":")[0] if pat else "?")
         key = "serialize_ops#%s%s" % ("+".join(pat), ("?" + "&".join(conds)) if conds else "")
         where = "pdf/src/content.rs:%d" % row["line"]
@@ -711,6 +766,46 @@ def rule_display(ctx, f):
         want = " ".join(["{}"] * len(kinds))
         ctx.check(fmts == [want], "C08-SIB-display", ty + "#format", "%s is printed with %s (the operator reads %d numbers separated by white-space: %r)" % (ty, fmts, len(kinds), want),
                   b["span"], detail=want)
+        # ... in the order of the specification, which is also the order in which the operand reader of that type takes them
+        order = json.load(open(os.path.join(HERE, "..", "spec", "operators.json")))["operand_types"].get(ty)
+        wargs = [norm(x_) for x in _walk(fn["body"]) if x.get("k") == "macro" and x.get("fmt") is not None for x_ in x.get("args", [])]
+        wfields = [x_[5:] if x_.startswith("self.") else x_ for x_ in wargs]
+        ctx.check(order is not None and wfields == order, "C08-SIB-display", ty + "#field-order", "%s prints its fields in the order %s, the operand is defined as %s" % (ty, wfields, order),
+                  b["span"], detail="printed in the order %s" % order)
+        helper = {"content::Point": "point", "content::ViewRect": "rect", "content::Rgb": "rgb", "content::Cmyk": "cmyk", "content::Matrix": "matrix"}[ty]
+        hf = [x for x in a.ast.fns if x["rel"] == "pdf/src/content.rs" and x["name"] == helper and not x.get("cfg_test")]
+        if not hf:
+            ctx.lost("C08-SIB-display", "operand reader `%s`" % helper)
+            continue
+        reads = []          # ("local", name) | ("field", name) in evaluation order
+        field_of = {}
+        # a local closure that takes the next number (`let mut next_number = || args.next()...;`) reads when it is called
+        reader_closures = set()
+        def is_read(tree):
+            for y in _walk(tree):
+                if y.get("k") == "mcall" and y.get("method") == "next" and norm(y.get("recv", "")) == "args":
+                    return True
+                if y.get("k") == "call" and norm(y.get("func", "")) in READ_KINDS and any("args" in norm(a_) for a_ in y.get("args", [])):
+                    return True
+                if y.get("k") == "call" and norm(y.get("func", "")) in reader_closures:
+                    return True
+            return False
+        for x in _walk(hf[0]["body"]):
+            if x.get("k") == "let" and isinstance(x.get("init"), dict) and x["init"].get("k") == "closure" and is_read(x["init"].get("body")):
+                reader_closures.add(norm(x.get("pat", "")).replace("mut", "", 1) if norm(x.get("pat", "")).startswith("mut") else norm(x.get("pat", "")))
+        for x in _walk(hf[0]["body"]):
+            if x.get("k") == "let" and isinstance(x.get("init"), dict) and x["init"].get("k") != "closure" and is_read(x["init"]) and re.match(r"^(mut)?[a-z_][a-z0-9_]*$", norm(x.get("pat", ""))):
+                reads.append(("local", norm(x["pat"]).replace("mut", "", 1) if norm(x["pat"]).startswith("mut") else norm(x["pat"])))
+            if x.get("k") == "struct" and norm(x.get("path", "")).split("::")[-1] == ty.split("::")[-1]:
+                for fl_ in x["fields"]:
+                    tx = norm(fl_["e"].get("text", "")) if isinstance(fl_["e"], dict) else ""
+                    if re.match(r"^[a-z_][a-z0-9_]*$", tx):
+                        field_of[tx] = fl_["name"]
+                    elif is_read(fl_["e"]):
+                        reads.append(("field", fl_["name"]))
+        rfields = [field_of.get(nm, "?" + nm) if k_ == "local" else nm for k_, nm in reads]
+        ctx.check(rfields == order, "C08-SIB-display", ty + "#read-order", "`%s` takes the numbers of a %s in the order %s, the operand is defined (and printed) as %s"
+                  % (helper, ty, rfields, order), "pdf/src/content.rs:%d" % hf[0]["line"], detail="read in the order %s" % order)
     ctx.floor("C08-SIB-display", n, 5, "Display impls of operand types")
 
 
